@@ -724,7 +724,9 @@ def extras_ok(extra, status, allocfail=False, config="default"):
                     "!SIG6": "abort (failed assert)",
                     "!SIG13": "killed by SIGPIPE"}.get(s, ("%s block(s) allocated by the library are still live after a fatal event-loop "
                                                              "error and the library's own exit handlers (leak)" % s[5:]) if s.startswith("!LIVE")
-                                                          else "child process died: " + s))
+                                                          else ("the buffer of request %s was written to after the request had completed or been "
+                                                                "cancelled (it belongs to the caller again from then on)" % s[9:])
+                                                          if s.startswith("!BUFTOUCH") else "child process died: " + s))
     kv = {}
     for t in extra:
         if t.startswith("nfds=") and t != "nfds=0":
